@@ -51,6 +51,12 @@ pub struct Conn {
 pub struct Plan {
     pub allow: Option<Vec<usize>>,
     pub groups: Vec<Vec<Conn>>,
+    /// the allowlist entries are added before `with_http_listener` is called (builder call order)
+    #[serde(default)]
+    pub allow_first: bool,
+    /// this many malformed / truncated connections, one after the other, before the groups
+    #[serde(default)]
+    pub bad_storm: u32,
 }
 
 // ---- independent CIDR model ------------------------------------------------------------------
@@ -251,7 +257,7 @@ impl Scenario for C18Http {
                     .collect()
             })
             .collect();
-        Plan { allow, groups }
+        Plan { allow, groups, allow_first: r.chance(400), bad_storm: if r.chance(15) { 70 } else { 0 } }
     }
     fn execute(&self, plan: &Plan, sched: &SchedSpec) -> RunReport {
         let net = simnet::install(sched.faults.clone());
@@ -263,7 +269,10 @@ impl Scenario for C18Http {
         let handle = std::thread::spawn(move || -> Result<(Vec<Vec<Outcome>>, Outcome, Vec<(usize, String)>), String> {
             let rt = tokio::runtime::Builder::new_current_thread().enable_time().build().map_err(|e| e.to_string())?;
             rt.block_on(async move {
-                let mut b = PrometheusBuilder::new().with_http_listener(addr);
+                let mut b = PrometheusBuilder::new();
+                if !p.allow_first {
+                    b = b.with_http_listener(addr);
+                }
                 let mut rejected = vec![];
                 if let Some(entries) = &p.allow {
                     for e in entries {
@@ -278,12 +287,21 @@ impl Scenario for C18Http {
                         };
                     }
                 }
+                if p.allow_first {
+                    b = b.with_http_listener(addr);
+                }
                 let (recorder, fut) = b.build().map_err(|e| format!("{}", e))?;
                 let server = tokio::spawn(fut);
                 let hits = Arc::new(AtomicU64::new(0));
                 let counter = recorder.register_counter(&Key::from_name("c18_hits"), &MD);
                 let mut all = vec![];
                 let mut port = 40_000u16;
+                // many connections that end badly, one after the other: none of them may cost the
+                // endpoint anything that later clients need
+                for i in 0..p.bad_storm {
+                    let c = Conn { peer: (0..PEER_POOL.len()).find(|x| model_allowed(&p.allow, *x)).unwrap_or(0), kind: if i % 2 == 0 { Kind::Garbage(1) } else { Kind::TruncatedHead }, chunk: 100_000 };
+                    let _ = peer_task(net2.clone(), addr, c, hits.clone(), 20_000 + i as u16, Arc::new(std::sync::atomic::AtomicBool::new(true))).await;
+                }
                 for g in &p.groups {
                     counter.increment(1);
                     hits.fetch_add(1, Ordering::SeqCst);
@@ -413,6 +431,13 @@ impl Scenario for C18Http {
     }
     fn shrink(&self, p: &Plan) -> Vec<Plan> {
         let mut out = vec![];
+        if p.bad_storm > 0 {
+            out.push(Plan { bad_storm: 0, ..p.clone() });
+            out.push(Plan { bad_storm: p.bad_storm - 1, ..p.clone() });
+        }
+        if p.allow_first {
+            out.push(Plan { allow_first: false, ..p.clone() });
+        }
         for i in 0..p.groups.len() {
             if p.groups.len() > 1 {
                 let mut q = p.clone();
